@@ -8,7 +8,7 @@ import AmVerif.Lemmas.Topo
   edge has its forward edge): hold for `[]`, preserved by `Graph.insertAsset` (both) and by
   `Graph.addDeps` (`Inverse` always; `InverseRev` if the asset has a node — counterexample otherwise);
 * `topo_nodup`, `topo_only_reachable`, `topo_closed`, `topo_changed`, `topo_complete`,
-  `topo_order_scc`, `topo_order`, `topo_order_deps`, `topo_terminates`, `topo_fuel_mono`: the
+  `topo_order_scc`, `topo_order`, `topo_order_idx`, `topo_order_deps`, `topo_terminates`, `topo_fuel_mono`: the
   theorems of `Lemmas/Topo.lean` lifted to `topo g fuel changed` (asset keys of the sorted list).
 -/
 namespace AmVerif.Model
@@ -442,6 +442,63 @@ example : (gEx.get (.asset k0)).map (·.deps) = some [fA, .asset k1] ∧
     (gEx.get (.asset k0)).map (·.rdeps) = some [.asset k2] := by decide
 example : (gEx.set fA {}).get fA = some {} ∧ (gEx.set fA {}).get fB = gEx.get fB :=
   ⟨by rw [get_set, if_pos rfl], by rw [get_set, if_neg (by decide)]⟩
+/-! examples for the helper lemmas above -/
+
+/-- the graph after the first insertion -/
+def gA : Graph := Graph.insertAsset [] (.asset k1) [fB]
+
+example : Graph.get ((fA, {}) :: gEx) fB = gEx.get fB := by rw [get_cons, if_neg (by decide)]
+example : gEx.any (·.1 = fA) = true := by rw [any_eq_isSome]; decide
+example : Graph.get (gEx ++ [(.dir "new", { typed := true })]) (.dir "new") = some { typed := true } := by
+  rw [get_append_single]; rfl
+example : (Graph.get (gA.map (fun x => if x.1 = fB then (fB, {}) else x)) fB).map (·.rdeps) = some [] := by
+  rw [get_map_upd]; rfl
+example : Dep.asset k0 ∈ addIfAbsent (.asset k0) [fA] := (mem_addIfAbsent _ _ _).mpr (Or.inl rfl)
+example : bump fA (bump fA { rdeps := [fB] }) = bump fA { rdeps := [fB] } ∧ (bump fA { rdeps := [fB] }).rdeps = [fB, fA] :=
+  ⟨bump_bump _ _, rfl⟩
+example : strip fA (strip fA { rdeps := [fA, fB] }) = strip fA { rdeps := [fA, fB] } ∧
+    (strip fA { rdeps := [fA, fB] }).rdeps = [fB] := ⟨strip_strip _ _, by decide⟩
+example : gA.insertAsset (.asset k0) [fA, .asset k1] =
+    ([fA, .asset k1].foldl (addR (.asset k0)) gA).set (.asset k0) { typed := true, deps := [fA, .asset k1], rdeps := [] } := by
+  rw [insertAsset_eq]; rfl
+example : (([fA, .asset k1].foldl (addR (.asset k0)) gA).get fA).map (·.rdeps) = some [.asset k0] := by
+  rw [get_addR_fold]; decide
+example : (([fB].foldl (rmR (.asset k1)) gA).get fB).map (·.rdeps) = some [] := by
+  rw [get_rmR_fold]; decide
+example : ((rmR (.asset k1) gA fB).get fB).map (·.rdeps) = some [] := by rw [get_rmR]; decide
+example : ∃ n, gA.get (.asset k1) = some n ∧ fB ∈ n.deps :=
+  g1_deps_old (a := .asset k0) (deps := [fA, .asset k1]) (x := .asset k1)
+    (n1 := { typed := true, rdeps := [.asset k0], deps := [fB] }) rfl (by simp)
+example : ∃ n1, ([fA, .asset k1].foldl (addR (.asset k0)) gA).get (.asset k1) = some n1 ∧ n1.deps = [fB] :=
+  g1_deps_new (n := { typed := true, rdeps := [], deps := [fB] }) rfl
+example : ∃ m1, ([fA, .asset k1].foldl (addR (.asset k0)) gA).get fA = some m1 ∧ Dep.asset k0 ∈ m1.rdeps :=
+  g1_rdeps_a (by simp)
+example : ∃ m1, ([fA, .asset k1].foldl (addR (.asset k0)) gA).get fB = some m1 ∧ Dep.asset k1 ∈ m1.rdeps :=
+  g1_rdeps_new (m := { rdeps := [.asset k1] }) rfl (by simp)
+example : ∃ m, gA.get fB = some m ∧ Dep.asset k1 ∈ m.rdeps :=
+  g1_rdeps_old (a := .asset k0) (deps := [fA, .asset k1]) (m1 := { rdeps := [.asset k1] }) rfl (by simp)
+    (Or.inl (by decide))
+example : Dep.asset k0 ∉ [fA, .asset k1] ∧ gA.get (.asset k0) = none :=
+  g1_get_a_none (by decide)
+example : (gA.insertAsset (.asset k0) [fA, .asset k1]).get fB = ([fA, .asset k1].foldl (addR (.asset k0)) gA).get fB := by
+  rw [get_insertAsset_none (by decide), if_neg (by decide)]
+-- `k0` is re-inserted with `[fA]` only: its node keeps `typed`, `k1` loses the backward edge
+example : ((gEx.insertAsset (.asset k0) [fA]).get (.asset k1)).map (·.rdeps) = some [] := by
+  rw [get_insertAsset_some (old := { typed := true, rdeps := [.asset k2], deps := [fA, .asset k1] }) rfl]; decide
+example : (insT (.asset k0) [fA] { deps := [fA, .asset k1] } (.asset k1) { rdeps := [.asset k0, fB] }).rdeps = [fB] := by
+  decide
+example : (insT (.asset k0) [fA] { deps := [fA, .asset k1] } (.asset k1) { deps := [fB] }).deps = [fB] :=
+  insT_deps_ne _ (by decide)
+example : (insT (.asset k0) [fA] { deps := [fA, .asset k1] } (.asset k0) { deps := [fB] }).deps = [fA] :=
+  insT_deps_self _
+example : fB ∈ (insT (.asset k0) [fA] { deps := [fA, .asset k1] } (.asset k1) { rdeps := [.asset k0, fB] }).rdeps :=
+  (mem_insT_rdeps _).mpr ⟨by simp, Or.inl (by decide)⟩
+example : fA ∈ [fA, fB].foldl (fun l d => addIfAbsent d l) [fB] := (mem_foldl_addIfAbsent _ _ _).mpr (Or.inr (by simp))
+example : (Graph.addDeps [] (.asset k0) [fA]).get fA = ([fA].foldl (addR (.asset k0)) []).get fA :=
+  get_addDeps_none (by decide) _
+example : ((gEx.addDeps (.asset k1) [fA]).get (.asset k1)).map (·.deps) = some [fB, fA] := by
+  rw [get_addDeps_some (n := { typed := true, rdeps := [.asset k0], deps := [fB] }) rfl, if_pos rfl]; rfl
+
 example : gEx.Inverse ∧ gEx.InverseRev :=
   ⟨inverse_insertAsset (inverse_insertAsset (inverse_insertAsset inverse_nil _ _) _ _) _ _,
    inverseRev_insertAsset (inverseRev_insertAsset (inverseRev_insertAsset inverseRev_nil _ _) _ _) _ _⟩
@@ -585,6 +642,10 @@ example : gEx.get (.asset k1) ≠ none := rdeps_in_graph (g := gEx)
   (inverseRev_insertAsset (inverseRev_insertAsset (inverseRev_insertAsset inverseRev_nil _ _) _ _) _ _)
   (a := fB) (rs := [.asset k1]) (by decide) (by simp)
 
+example : ∃ n, gEx.get fB = some n ∧ n.rdeps = [.asset k1] := rdepsOf_eq_some.mp (by decide)
+example : gEx.rdepsOf fB ≠ none := rdepsOf_ne_none.mpr (by decide)
+example : (fB, { rdeps := [.asset k1] }) ∈ gEx := get_some_mem rfl
+
 /-- files and directories first, then `k1`, `k0`, `k2` -/
 def exRankD : Dep → Nat
   | .asset k => match k.ty with | 1 => 3 | 0 => 2 | _ => 1
@@ -659,6 +720,17 @@ theorem topo_order {rank : Dep → Nat} (hr : ∀ a rs b, g.rdepsOf a = some rs 
   obtain ⟨pre', post', ho, _, rfl⟩ := assetKeys_split hk
   exact mem_assetKeys.mpr (sortFrom_order hr hs pre' _ post' ho rs hrs _ hk' (rdepsOf_ne_none.mpr hg))
 
+/-- **topo_order_idx.** Index formulation of `topo_order`: a reloaded asset has a smaller index than
+each asset of the graph that depends on it (which is reloaded too). -/
+theorem topo_order_idx {rank : Dep → Nat} (hr : ∀ a rs b, g.rdepsOf a = some rs → b ∈ rs → rank b < rank a)
+    (h : topo g fuel changed = some keys) :
+    ∀ k ∈ keys, ∀ rs, g.rdepsOf (.asset k) = some rs → ∀ k', Dep.asset k' ∈ rs → g.get (.asset k') ≠ none →
+      k' ∈ keys ∧ keys.idxOf k < keys.idxOf k' := by
+  intro k hk rs hrs k' hk' hg
+  obtain ⟨pre, post, hsplit⟩ := List.append_of_mem hk
+  have hp := topo_order hr h pre k post hsplit rs hrs k' hk' hg
+  exact ⟨by rw [hsplit]; simp [hp], idxOf_lt_of_split hsplit (topo_nodup h) hp⟩
+
 /-- **topo_order_deps.** The same from the forward edges: if the graph satisfies `InverseRev` and a
 rank strictly decreases from every node to its dependencies, then in `keys = pre ++ k :: post` every
 reverse dependency of `k` is in `post` (it is a node of the graph by `InverseRev`). -/
@@ -693,6 +765,8 @@ end TopoThms
 
 /-! ### examples (non-vacuity) -/
 
+example : ∃ st, sortFrom gEx.rdepsOf 8 [fB] = some st ∧ [k1, k0, k2] = assetKeys st.out :=
+  topo_eq (g := gEx) (by decide)
 -- file `b` changed: `k1` reads it, `k0` reads `k1`, `k2` reads `k0`: reloaded in this order
 example : topo gEx 8 [fB] = some [k1, k0, k2] := by decide
 -- both files and the directory changed, in an unfavourable order: same order, nothing twice
@@ -717,6 +791,10 @@ example : k2 ∈ [k2] ∨ Reach gEx.rdepsOf (.asset k2) (.asset k0) :=
   topo_order_scc (g := gEx) (fuel := 8) (changed := [fB]) (by decide) [k1] k0 [k2] rfl [.asset k2] (by decide)
     k2 (by simp) (by decide)
 
+example : k2 ∈ [k1, k0, k2] ∧ [k1, k0, k2].idxOf k0 < [k1, k0, k2].idxOf k2 :=
+  topo_order_idx gEx_rank (g := gEx) (fuel := 8) (changed := [fB]) (by decide) k0 (by decide) [.asset k2] (by decide)
+    k2 (by simp) (by decide)
+
 /-- the natural rank: an asset is above everything it reads -/
 def exRankF : Dep → Nat
   | .asset k => match k.ty with | 1 => 1 | 0 => 2 | _ => 3
@@ -727,6 +805,10 @@ example : k2 ∈ [k2] :=
     (inverseRev_insertAsset (inverseRev_insertAsset (inverseRev_insertAsset inverseRev_nil _ _) _ _) _ _)
     (deps_rank_of_entries (by decide))
     (fuel := 8) (changed := [fB]) (by decide) [k1] k0 [k2] rfl [.asset k2] (by decide) k2 (by simp)
+example : ∀ a rs b, gEx.rdepsOf a = some rs → b ∈ rs → exRankF a < exRankF b :=
+  acyclic_of_deps_rank
+    (inverseRev_insertAsset (inverseRev_insertAsset (inverseRev_insertAsset inverseRev_nil _ _) _ _) _ _)
+    (deps_rank_of_entries (by decide))
 example : ∃ keys, topo gEx 7 [fB, fA] = some keys := topo_terminates gEx 7 (by decide) _
 example : topo gEx 4 [fB] = topo gEx 40 [fB] ∧ topo gEx 3 [fB] = none := by decide
 example : topo gEx 40 [fB] = some [k1, k0, k2] := topo_fuel_mono (fuel := 4) (by decide) (by decide)
